@@ -63,6 +63,7 @@ fn main() {
         let cons = ctx.spawn("cons", move || {
             let c = mayv::ctx();
             let mut got: Vec<usize> = vec![];
+            let mut peeked: Option<usize> = None;
             let mut tries = 0usize;
             while got.len() < want && tries < 200_000 {
                 tries += 1;
@@ -73,6 +74,11 @@ fn main() {
                         match q2.pop() {
                             Some(p) => {
                                 c.log("pop.ret", 1, p.0 as u64, None);
+                                if let Some(v) = peeked.take() {
+                                    if v != p.0 {
+                                        c.fail(format!("peek showed {v} but the next pop returned {}", p.0));
+                                    }
+                                }
                                 got.push(p.0);
                             }
                             None => {
@@ -85,6 +91,14 @@ fn main() {
                         c.log("bulk.call", 0, 0, None);
                         let v = q2.bulk_pop();
                         c.log("bulk.ret", v.len() as u64, v.first().map(|p| p.0).unwrap_or(0) as u64, None);
+                        if let (Some(v0), Some(first)) = (peeked, v.first()) {
+                            if v0 != first.0 {
+                                c.fail(format!("peek showed {v0} but the next bulk_pop starts with {}", first.0));
+                            }
+                        }
+                        if !v.is_empty() {
+                            peeked = None;
+                        }
                         for p in v {
                             got.push(p.0);
                         }
@@ -101,6 +115,14 @@ fn main() {
                         c.log("peek.call", 0, 0, None);
                         let r = unsafe { q2.peek() }.map(|p| p.0);
                         c.log("peek.ret", r.is_some() as u64, r.unwrap_or(0) as u64, None);
+                        // the single consumer peeks: the next value it takes out must be the one it saw
+                        if let Some(v) = r {
+                            let pr = v / 1000;
+                            if pr == 0 || pr > np || v % 1000 >= nv {
+                                c.fail(format!("peek showed {v}, which was never pushed"));
+                            }
+                            peeked = Some(v);
+                        }
                     }
                 }
             }
